@@ -241,8 +241,10 @@ func (d *decodingReader) decode(f frame.Frame) error {
 		}
 		// This is guaranteed by gob, but it seems worthy of some defensive programming here.
 		// It's also an extra check against the correctness of the codec.
-		if pHdr.Data != sh.Data {
-			panic("gob reallocated a slice")
+		if pHdr.Data != sh.Data || pHdr.Len != sh.Len {
+			// gob reallocates or resizes the slice when the encoded column does
+			// not have the batch's length: the stream is corrupted.
+			return errors.E(errors.Integrity, errors.New("column length does not match batch length"))
 		}
 	}
 	sum := d.crc.Sum32()
